@@ -235,16 +235,33 @@ AsTuple(v) == IF IsNone(v) THEN VTup(<<>>)
 StarArgsCorner(v) == IsStarArgs(AsTuple(v))
 
 \* ---------------------------------------------------------------------------------------------
-\* Trees with awaitables (waiter).  An awaitable leaf <<"aw", <<id, kind>>>> stands for a future,
-\* coroutine or task that will deliver V[id]; the same id may occur more than once (one future
-\* placed twice).
+\* Trees with awaitables (waiter).  An awaitable leaf <<"aw", <<id, kind, dep>>>> stands for a
+\* future ("fut"), an un-started coroutine ("coro") or a running task ("task") that will deliver
+\* V[id]; the same id may occur more than once (one future placed twice).  A coroutine only makes
+\* progress once somebody has started (awaited) it; dep # 0 says that it can, in addition, only
+\* finish after awaitable dep has been *started* (dep's first step releases it).
 \* ---------------------------------------------------------------------------------------------
 IsAw(v) == Tag(v) = "aw"
 AwId(v) == Pay(v)[1]
+AwKind(v) == Pay(v)[2]
+AwDep(v) == Pay(v)[3]
 RECURSIVE AwIds(_)
 AwIds(x) == IF IsAw(x) THEN {AwId(x)}
             ELSE IF IsCont(x) THEN UNION {AwIds(Child(x, i)) : i \in 1..Width(x)}
             ELSE {}
+RECURSIVE AwLeaves(_)
+AwLeaves(x) == IF IsAw(x) THEN {x}
+               ELSE IF IsCont(x) THEN UNION {AwLeaves(Child(x, i)) : i \in 1..Width(x)}
+               ELSE {}
+CoroIds(x) == {AwId(a) : a \in {b \in AwLeaves(x) : AwKind(b) = "coro"}}     \* not started until waiter awaits them
+DepsOf(x, i) == {AwDep(a) : a \in {b \in AwLeaves(x) : AwId(b) = i}} \ {0}   \* who must have started before i can finish
+\* the same structure with the dependency of every coroutine set by dep (a function on CoroIds)
+RECURSIVE SetDep(_, _)
+SetDep(x, dep) ==
+    IF IsAw(x) THEN (IF AwKind(x) = "coro" THEN <<"aw", <<AwId(x), "coro", dep[AwId(x)]>>>> ELSE x)
+    ELSE IF IsSeq(x) THEN <<Tag(x), [k \in 1..Width(x) |-> SetDep(Pay(x)[k], dep)]>>
+    ELSE IF IsMap(x) THEN <<"m", [k \in 1..Width(x) |-> <<Pay(x)[k][1], SetDep(Pay(x)[k][2], dep)>>]>>
+    ELSE x
 \* the structure with awaitable i replaced, in place, by its result
 RECURSIVE Fill(_, _, _)
 Fill(x, i, val) ==
